@@ -117,6 +117,10 @@ fn scenarios(tier: &str) -> Vec<C13> {
 }
 
 pub fn replay(scenario: &str, path: &[usize]) -> Option<RunResult> {
+    use crate::explore::CaseSpace;
+    if scenario == super::c03x::OverflowPerType.name() {
+        return Some(super::c03x::OverflowPerType.run(path[0], true));
+    }
     scenarios("thorough").into_iter().find(|s| s.inner.name == scenario).map(|s| s.run(path, true))
 }
 
@@ -125,9 +129,10 @@ pub fn check(tier: &str) -> i32 {
     for s in scenarios(tier) {
         c.explore(&s);
     }
+    c.cases(&super::c03x::OverflowPerType);
     c.finish(
         "model_checking",
-        "every event history over the listed alphabet (C03's alphabet plus broadcasts of the three confirm modes, WRITE of the restart bit to 0 and 1, reconnect, flips of the application's need-time / config-corrupt answers) up to the listed depth, executed on the real OutstationTask; for every first transmission of a response the oracle recomputes IIN1 and IIN2.3/2.5 from the event ledger and the indication model and compares all ten bits; non-trivial = at least two responses were checked; distinct = distinct observation trace",
+        "(overflow per type) every ordered pair of the 8 event types (one overflowed, the other holding exactly its limit or one less): the overflow bit is reported with the discard, stays after the confirmation exactly if a type is still at capacity, and clears once that type is confirmed too; (histories) every event history over the listed alphabet (C03's alphabet plus broadcasts of the three confirm modes, WRITE of the restart bit to 0 and 1, reconnect, flips of the application's need-time / config-corrupt answers) up to the listed depth, executed on the real OutstationTask; for every first transmission of a response the oracle recomputes IIN1 and IIN2.3/2.5 from the event ledger and the indication model and compares all ten bits; non-trivial = at least two responses were checked; distinct = distinct observation trace",
         &[
             "byte-identical re-sends of the response awaiting confirmation carry the bits of the moment they were built and are exempt",
             "updates are placed at quiescent points (H6 lock-point placements are not built)",
